@@ -22,12 +22,14 @@ IMPORTS = "Base Lex"
 RULE = ("universe of 4-8 objects (1-3 Workflows, 0-3 empty Macros, leaves; labels from a clash-prone pool, "
         "strict naming on/off per composite) + history of 6-40 operations: add_child (with/without label, "
         "strict_naming override), attribute assignment, construction with parent=, parent assignment "
-        "(composite/None/non-composite), remove_child by instance/label, replace_child by instance/label, "
+        "(composite/None/non-composite; the node may already carry a reserved name), remove_child by instance/label, replace_child by instance/label, "
         "marking starting nodes; ~75% of the operations are biased towards being applicable, the rest is "
-        "arbitrary (clashes, second parents, cycles, workflows as children, reserved names); a history is abandoned "
+        "arbitrary (clashes, second parents, cycles, workflows as children, reserved names: methods, properties, "
+        "instance-only attributes such as executor/running/starting_nodes and a user-set plain attribute); a history is abandoned "
         "at the first operation after which the property fails on the implementation (never, on the repaired code). Non-trivial = some "
         "operation changed the ownership state; distinct = distinct (universe, history)")
-TRUSTED = ["dir(composite) restricted to the label pool is passed to the model as its `reserved` table",
+TRUSTED = ["the composite's own attribute names (instance __dict__ + dir(class), read off real objects, NOT through "
+           "the __dir__ under test) restricted to the label pool are the model's `reserved` table and the oracle's",
            "replace_child is exercised on unconnected nodes only (copy_io / value links have nothing to do)"]
 ASSUMPTIONS = ["labels are assigned only through adoption (no direct `child.label = x` on an owned child); "
                "children/starting_nodes containers are not edited directly except appending a current child to "
@@ -49,19 +51,37 @@ def Macro13(self):
 
 POOL = ["a", "b", "c", "a0", "a1", "b0", "m", "w", "run", "inputs", "parent", "children", "label",
         "starting_nodes", "a/b", "", "x"]
+# names that exist only in the INSTANCE __dict__ of a composite (not on its class), plus a plain value the
+# user stored on it (USERVAL, set by the driver on every composite): as reserved as a method name
+USERVAL = "userval"
+INSTANCE_ONLY = ["executor", "running", "failed", "future", "checkpoint", "recovery", "strict_naming",
+                 "signal_queue", "running_children", "provenance_by_execution", "provenance_by_completion",
+                 "automate_execution", "starting_nodes", USERVAL]
+
+
+def genuine_attributes(obj):
+    """the composite's own attribute names, read off the object itself (instance __dict__ + everything its
+    class defines) -- deliberately NOT through obj.__dir__(), which is the code under test"""
+    return set(vars(obj)) | set(dir(type(obj)))
+
+
+ATTRS: dict[str, set] = {}     # every attribute name of a composite of each kind (for the oracle)
 
 
 def _reserved_tables():
     from pyiron_workflow import Workflow
     w = Workflow("resprobe", autoload=None)
     m = Macro13(label="resprobe")
-    cand = set(POOL)
-    for l in POOL:
+    for o in (w, m):
+        setattr(o, USERVAL, 7)
+    cand = set(POOL) | set(INSTANCE_ONLY)
+    for l in POOL + INSTANCE_ONLY:
         for i in range(12):
             cand.add(f"{l}{i}")
             for j in range(3):
                 cand.add(f"{l}{i}{j}")
-    dw, dm = set(dir(w)), set(dir(m))
+    dw, dm = genuine_attributes(w), genuine_attributes(m)
+    ATTRS.update({"W": dw, "M": dm, "L": set()})
     return {"W": sorted(c for c in cand if c in dw), "M": sorted(c for c in cand if c in dm), "L": []}
 
 
@@ -72,7 +92,7 @@ PRELUDE = ("Definition res13 (k : kind) (l : string) : bool := match k with "
 
 
 def _in_dir(kind, l):
-    return l in RES[kind]
+    return l in ATTRS[kind]
 
 
 # ---- generation -----------------------------------------------------------------------------
@@ -85,7 +105,12 @@ def gen_universe(rng):
     kinds = ["W"] * n_w + ["M"] * n_m + ["L"] * n_l
     rng.shuffle(kinds)
     lab_pool = ["a", "b", "c", "a0", "m", "w", "x", "a", "b"]
-    return [[k, rng.choice(lab_pool), rng.random() < 0.6] for k in kinds]
+
+    def ulab(k):
+        if k != "W" and rng.random() < 0.1:
+            return rng.choice(INSTANCE_ONLY + ["run", "inputs"])
+        return rng.choice(lab_pool)
+    return [[k, ulab(k), rng.random() < 0.6] for k in kinds]
 
 
 class _Sim:
@@ -113,7 +138,11 @@ def gen_ops(rng, nodes, n_ops):
         if avoid_wf and nodes[i][0] == "W" and rng.random() < 0.75:
             i = rng.randrange(N)
         return i
-    lab = lambda: rng.choice(POOL if rng.random() < 0.5 else POOL[:8])
+    def lab():
+        r = rng.random()
+        if r < 0.12:
+            return rng.choice(INSTANCE_ONLY)
+        return rng.choice(POOL if r < 0.56 else POOL[:8])
     for _ in range(n_ops):
         wild = rng.random() < 0.25
         k = rng.choice(["add", "add", "add", "setattr", "setattr", "new", "parent", "parent", "parent", "rmi", "rml",
@@ -202,10 +231,13 @@ def corpus(ctx):
 def _make(kind, label, strict, parent=None, fresh=False):
     from pyiron_workflow import Workflow
     if kind == "W":
-        return Workflow(label, strict_naming=strict, autoload=None)
-    if kind == "M":
-        return Macro13(label=label, strict_naming=strict, parent=parent) if fresh else Macro13(label=label, strict_naming=strict)
-    return Leaf13(label=label, parent=parent) if fresh else Leaf13(label=label)
+        o = Workflow(label, strict_naming=strict, autoload=None)
+    elif kind == "M":
+        o = Macro13(label=label, strict_naming=strict, parent=parent) if fresh else Macro13(label=label, strict_naming=strict)
+    else:
+        return Leaf13(label=label, parent=parent) if fresh else Leaf13(label=label)
+    setattr(o, USERVAL, 7)     # a plain value the user stored on the composite
+    return o
 
 
 def run_impl(case):
